@@ -7,22 +7,24 @@ position starts with the key / type name); error locations by fault injection wi
 from __future__ import annotations
 
 import hashlib
+import os
 
-from .. import core, corpus, gen, render, valcheck, vocab
+from .. import core, corpus, engine, gen, render, valcheck, vocab
 from ..engine import Engine
 
 RULE = ("generated documents x surface renderings (several keywords per line, values spread over lines, tabs, form feeds, CRLF, # and "
         "multi-line /* */ comments, multi-line strings before the token) loaded with include_position=True: every object / keyword "
         "position compared with the renderer's token map, value positions checked for source order; 1-2 injected faults per document: "
         "message (line, column) set compared with the faulty keyword's / enclosing opener's position; corpus files under the "
-        "renderer-free contract; distinct = distinct rendered text")
+        "renderer-free contract; a quarter of the documents go through open(file) / load(stream) instead of loads (strings and comments hold "
+        "text that is not in a Unicode normal form); distinct = distinct rendered text")
 EVAL_KEY = "positions_compared"
 DISTINCT_KEY = "documents"
 NSHARDS = {"quick": 8, "thorough": 16}
 FLOORS = {"quick": {"positions_compared": 80000, "documents_checked": 3500, "fault_locations_checked": 2000, "corpus_positions_checked": 15000,
-                    "distinct:layout-before-token": 12},
+                    "distinct:layout-before-token": 12, "positions_through_file_front_ends": 700},
           "thorough": {"positions_compared": 600000, "documents_checked": 30000, "fault_locations_checked": 25000,
-                       "corpus_positions_checked": 15000, "distinct:layout-before-token": 14}}
+                       "corpus_positions_checked": 15000, "distinct:layout-before-token": 14, "positions_through_file_front_ends": 7000}}
 ASSUMPTIONS = ["mf/render.py tracks (line, column) of every token it writes: a line break is counted at LF only (CRLF = one break), a tab is one column"]
 DOMAIN = gen.DOMAIN + ["include-free text; keywords are not duplicated inside one object (which occurrence a duplicated key records is not stated)"]
 
@@ -148,6 +150,17 @@ def corpus_contract(res, case, text, d):
 
 
 def run(ctx):
+    import shutil
+    import tempfile
+
+    tmpdir = tempfile.mkdtemp(prefix="mf-c08-")
+    try:
+        _run(ctx, tmpdir)
+    finally:
+        shutil.rmtree(tmpdir, ignore_errors=True)
+
+
+def _run(ctx, tmpdir):
     eng = Engine(public_every=100)
     res = ctx.res
     r = ctx.rng("c08")
@@ -161,8 +174,22 @@ def run(ctx):
             text = rr.text
             case = {"part": "positions", "text": text[:6000], "surface": s.describe()}
             with_comments = (j % 2 == 1)
+            via = ("loads", "loads", "loads", "open", "loads", "loads", "loads", "load")[(j // 2) % 8]
+            case["via"] = via
             try:
-                d = eng.loads(text, include_position=True, include_comments=with_comments)
+                if via == "loads" or engine._DIRECTIVE.search(text):
+                    d = eng.loads(text, include_position=True, include_comments=with_comments)
+                else:
+                    # the file front ends report positions in the file's text
+                    fn = os.path.join(tmpdir, "doc.map")
+                    with open(fn, "w", encoding="utf-8", newline="") as f:
+                        f.write(text)
+                    if via == "open":
+                        d = eng.mf.open(fn, include_position=True, include_comments=with_comments)
+                    else:
+                        with open(fn, encoding="utf-8", newline="") as f:
+                            d = eng.mf.load(f, include_position=True, include_comments=with_comments)
+                    res.count("positions_through_file_front_ends")
             except Exception as ex:
                 res.count("rendering_not_accepted")
                 continue
